@@ -376,7 +376,7 @@ def run(c):
     if not xbeh:
         c.fail_tool("exchange model: TLC printed no finished exchanges")
     if thorough:
-        r3 = c.tlc(SD, "ScmpExchange", cfg=cfg(c, "exchange3.cfg", exchange_cfg(3, "FALSE", IDEAL, kinds='{"req", "treq", "err", "uerr", "bad", "dgram"}')), timeout=12000, coverage=False)
+        r3 = c.tlc(SD, "ScmpExchange", cfg=cfg(c, "exchange3.cfg", exchange_cfg(3, "FALSE", IDEAL, kinds='{"req", "uerr", "bad"}')), timeout=12000, coverage=False)
         design_violations(c, r3, "ScmpExchange (3 originated messages)")
     # the simulated network delivers its own error messages at once: replay the exchanges in which every router-made message is delivered
     # (and the router-alert scenario of the harness lies on the path from host A)
